@@ -60,6 +60,12 @@ func genDet(rr *hxlib.Rand, w, cap int, tmo time.Duration, length int) (*det, Ca
 		do("shutdown") // before the first Execute: no effect
 	}
 	running := func() []int { d.settle(); return d.b.snap().running }
+	quiet := func() { // enabledness tie (quiet.go), a bounded number per run
+		if quietBudget > 0 && !d.hung {
+			quietBudget--
+			do("quiet")
+		}
+	}
 	for i := 0; i < length && !d.hung; i++ {
 		if blocked >= 0 {
 			if d.inflight <= d.wn+d.cap {
@@ -84,6 +90,7 @@ func genDet(rr *hxlib.Rand, w, cap int, tmo time.Duration, length int) (*det, Ca
 				do(fmt.Sprintf("spawn t=%d", next))
 				blocked = next
 				next++
+				quiet() // an Execute parked in its send, every worker inside a task
 			}
 		case x < 8:
 			if rs := running(); len(rs) > 0 {
@@ -91,6 +98,9 @@ func genDet(rr *hxlib.Rand, w, cap int, tmo time.Duration, length int) (*det, Ca
 			}
 		default:
 			do("obs")
+			if i%4 == 0 {
+				quiet()
+			}
 		}
 	}
 	if d.hung {
@@ -137,6 +147,7 @@ func genDet(rr *hxlib.Rand, w, cap int, tmo time.Duration, length int) (*det, Ca
 		do("obs")
 		do("shutdown-async")
 		do("obs")
+		quiet() // Shutdown parked in wg.Wait (or returned), workers inside tasks
 		finAll()
 		if !d.hung {
 			do("await-shutdown")
@@ -165,8 +176,35 @@ func genDet(rr *hxlib.Rand, w, cap int, tmo time.Duration, length int) (*det, Ca
 		next++
 		do("shutdown")
 		do("obs")
+		quiet() // everything has returned
 	}
 	return d, c
+}
+
+// lockWaitLeg: forced schedules in which Shutdown waits in guard.Lock() behind an Execute that is parked in its
+// send (it holds the read lock), and a further Execute arrives meanwhile: Go's RWMutex parks it in RLock (writer
+// preference), so when room is made the first call gets through, Shutdown flips the state and the late call is
+// refused.  The notion of "internal action" of C18_no_stuck and the driver's scheduler say the same.
+func lockWaitLeg(r *hxlib.Run, tmo time.Duration) int {
+	bad := 0
+	for _, wc := range [][2]int{{1, 1}, {1, 0}, {2, 1}, {2, 0}, {3, 2}} {
+		w, cp := wc[0], wc[1]
+		c := Case{Kind: "det", W: w, Cap: cp, Ops: []string{fmt.Sprintf("new w=%d cap=%d", w, cp)}}
+		n := 0
+		for ; n < w+cp; n++ {
+			c.Ops = append(c.Ops, fmt.Sprintf("exec t=%d", n))
+		}
+		c.Ops = append(c.Ops, "obs", fmt.Sprintf("spawn t=%d", n), "quiet", "shutdown-async", "quiet",
+			fmt.Sprintf("spawn t=%d", n+1), "quiet", "fin t=0 k=ok", fmt.Sprintf("await t=%d", n), fmt.Sprintf("await t=%d", n+1), "quiet", "obs")
+		for i := 1; i <= n; i++ {
+			c.Ops = append(c.Ops, "obs")
+			// tasks are started in submission order for one worker only; finish whatever runs
+		}
+		c.Ops = append(c.Ops, "openall k=ok", "await-shutdown", "quiet", "obs")
+		bad += runDet(r, &c, r.R.Fork(), tmo, 0)
+		r.Count("det:lock-wait")
+	}
+	return bad
 }
 
 func replayDet(c Case, tmo time.Duration) *det {
@@ -388,6 +426,8 @@ func main() {
 	bad := 0
 	fixed := [][2]int{{1, 0}, {1, 1}, {1, 4}, {2, 0}, {2, 1}, {3, 2}, {0, 2}, {-1, 1}, {4, 8}, {8, 64}}
 	n := r.Scale(400, 6000)
+	quietBudget = r.Scale(160, 2500)
+	bad += lockWaitLeg(r, tmo)
 	for i := 0; i < n && bad < 6; i++ {
 		var w, cp int
 		if i < len(fixed) {
